@@ -68,7 +68,7 @@ func c20describe(hist []porcupine.Operation, skipClient int, f func(in, out inte
 
 func c20Gen(r *sim.Rand, tier string) *sim.Case {
 	cs := &sim.Case{Knobs: map[string]int64{}}
-	cs.Variant = []string{"vlan", "qinq", "pppoe", "pppoe-wrap", "state-session", "state-lease", "allocstore", "submgr", "circuit"}[r.Weighted(30, 16, 16, 1, 7, 7, 9, 10, 4)]
+	cs.Variant = []string{"vlan", "qinq", "pppoe", "pppoe-wrap", "state-session", "state-lease", "allocstore", "submgr", "circuit"}[r.Weighted(60, 32, 32, 1, 14, 14, 18, 20, 8)]
 	ncl := sim.Pick(r, 1, 1, 1, 2, 2, 3, 4)
 	if cs.Variant == "pppoe-wrap" || cs.Variant == "circuit" {
 		ncl = 1
